@@ -38,6 +38,9 @@ checks = {
  "C07": ("model_checking", "full enumeration of the abstract auth-rule space per event class (pruned only by irrelevance) x room versions; every cell is concretised into real events and the real Allowed is compared with an independent reference of the rules (refauth); decisive cells (verdict flips on one coordinate) are counted",
          "Every cell of the rule space within the listed dimension menus is executed on the real code. The reference is a numbered transcription of the specification plus the documented departures D1-D16; any other disagreement is a violation.",
          "refauth may share a misreading with the code; mitigated by decisive-cell counts and the seeded-change runs", "4/C07, 5.1"),
+ "C08": ("model_checking", "exhaustive one-step pairs (current content x every change of <=3 keys over a 4-value menu around the sender's level, 14 keys, 3 sender kinds, 16 versions) and explicit-state BFS over histories of accepted power-level events by three users, all through the real Allowed; oracle = invariant on effective levels computed from the two contents (independent of the reference rules)",
+         "Every accepted event in the enumerated space is checked against a no-escalation invariant computed directly from the old and new contents; histories are explored breadth-first with the content as canonical state.",
+         "event-type entries judged entry-against-entry as the specification does; users without an entry follow users_default", "4/C08"),
 }
 pending = {}
 props = [json.loads(l) for l in open('/verif/properties.jsonl')]
